@@ -4,13 +4,11 @@ go 1.18
 
 require (
 	github.com/IBM/fluent-forward-go v0.0.0
+	github.com/google/uuid v1.3.0
 	github.com/gorilla/websocket v1.4.2
 	github.com/tinylib/msgp v1.1.9
 )
 
-require (
-	github.com/google/uuid v1.3.0 // indirect
-	github.com/philhofer/fwd v1.1.2 // indirect
-)
+require github.com/philhofer/fwd v1.1.2 // indirect
 
 replace github.com/IBM/fluent-forward-go => /repo
